@@ -39,6 +39,23 @@ Theorem C08_domain_step_reference_follows : forall s o s' e, Inv s -> is_domain 
 Proof. exact domain_rejected_unchanged. Qed.
 Print Assumptions C08_domain_step_reference_follows.
 
+(** ======== Weaver level (class Weaver in weaver.py; model coq/Model/Weaver.v) ======== *)
+From TW Require Import Model.WeaverSpec Model.Interval Proofs.WeaverLevelProofs.
+(** after any state with working = reference, recreate (any strategy, any parameters) followed by the default
+    integral match reproduces every (transformed) average: block integral = average * width *)
+Theorem C08_pipeline : forall pw pwr gpow k s n s1 rt, PwOk pw -> known_rule rt ->
+  Inv s -> ssorted (wx s) -> (2 <= length (wx s))%nat -> length (wx s) = length (wy s) -> (2 <= n)%Z ->
+  step s (ORecreate n pwr gpow k) = (s1, Ok tt) ->
+  exists s2, step s1 (OMatch pw (ByStrategy Closest) rt Rectangle) = (s2, Ok tt) /\
+    let N := Z.to_nat n in
+    wx s2 = oversample_linspace (wx s) N /\ length (wy s2) = length (wx s2) /\
+    wrx s2 = wrx s /\ wry s2 = wry s /\
+    forall j, (j + 1 < length (wx s))%nat ->
+      total rt (slice (wx s2) (j * N) ((j + 1) * N + 1)) (slice (wy s2) (j * N) ((j + 1) * N + 1))
+      = nthq j (wry s) * (nthq (j + 1) (wrx s) - nthq j (wrx s)).
+Proof. exact weaver_pipeline. Qed.
+Print Assumptions C08_pipeline.
+
 Example C08_example :
   match init (Some [qz 0; qz 1; qz 2; qz 4]) [qz 1; qz 3; qz 3; qz 0] with
   | Ok s0 =>
